@@ -70,8 +70,20 @@ def _targets(t):
         yield t
 
 
+_WCACHE = {}
+
+
 def writes_in(fn_node, nested=False):
-    """All attribute writes in the function body."""
+    """All attribute writes in the function body (cached per AST node)."""
+    k = (id(fn_node), nested)
+    r = _WCACHE.get(k)
+    if r is None:
+        r = _writes_in(fn_node, nested)
+        _WCACHE[k] = r
+    return r
+
+
+def _writes_in(fn_node, nested=False):
     out = []
     aliases = local_aliases(fn_node)
     it = ast.walk(fn_node) if nested else walk_no_nested(fn_node)
